@@ -34,7 +34,13 @@ pub const FLAG_BUNDLES: &[&[&str]] = &[
     &["--raw-line", "// a", "--raw-line", "// b", "--module-raw-line", "root", "// m1", "--module-raw-line", "root", "// m2"],
     &["--must-use-type", ".*", "--with-derive-default", "--with-derive-hash", "--with-derive-partialeq", "--with-derive-eq", "--with-derive-partialord", "--with-derive-ord"],
     &["--allowlist-type", "[A-Z].*", "--allowlist-function", ".*", "--allowlist-var", ".*", "--no-recursive-allowlist"],
+    // layout tests as #[test] functions (their names carry per-generation counters)
+    &["--rust-target", "1.73"],
+    &["--rust-target", "1.73", "--enable-cxx-namespaces"],
 ];
+
+/// flags that take one value and may be given once
+const SINGLE_VALUED: &[&str] = &["--rust-target"];
 
 #[derive(Clone, Debug, Serialize, Deserialize)]
 pub enum Source {
@@ -110,7 +116,8 @@ fn item_input(it: &PoolItem) -> Option<BgInput> {
             end += 1;
         }
         let group = &it.extra_flags[k..end];
-        if group.len() > 1 || !input.flags.contains(&group[0]) {
+        let once = group.len() == 1 || SINGLE_VALUED.contains(&group[0].as_str());
+        if !once || !input.flags.contains(&group[0]) {
             input.flags.extend(group.iter().cloned());
         }
         k = end;
@@ -309,8 +316,8 @@ impl Property for C11 {
             let mut flags: Vec<String> = vec![];
             let mut seen = std::collections::BTreeSet::new();
             for i in idx {
-                // switches must not repeat (clap rejects that)
-                if FLAG_BUNDLES[i].len() == 1 && !seen.insert(FLAG_BUNDLES[i][0]) {
+                // switches and single-valued flags must not repeat (clap rejects that)
+                if (FLAG_BUNDLES[i].len() == 1 || SINGLE_VALUED.contains(&FLAG_BUNDLES[i][0])) && !seen.insert(FLAG_BUNDLES[i][0]) {
                     continue;
                 }
                 flags.extend(FLAG_BUNDLES[i].iter().map(|x| x.to_string()));
@@ -337,14 +344,43 @@ impl Property for C11 {
         // cross-process sweep of the whole breadth pool, with a short fixed history
         let names = pool_repo_names();
         let procs = tier.pick(4, 32) as u8;
-        names
+        let mut v: Vec<Case> = names
             .chunks(6)
             .map(|c| Case {
                 pool: c.iter().map(|n| PoolItem { source: Source::Repo(n.clone()), depfile: true, extra_flags: vec![] }).collect(),
                 steps: vec![Step::Generate(0), Step::Generate(1), Step::Generate(0), Step::Concurrent { threads: 8, inputs: vec![0, 1, 2, 3, 4, 5], same_input: false }, Step::SameBuilderAgain(2, 2), Step::SetWorklistSeed(Some(3)), Step::Generate(0), Step::Concurrent { threads: 8, inputs: vec![1], same_input: true }],
                 processes: procs,
             })
-            .collect()
+            .collect();
+        // the same for C++ inputs with layout tests as test functions: every input is generated
+        // twice in a row, again after the others, from one builder and concurrently
+        let old = vec!["--rust-target".to_string(), "1.73".to_string()];
+        let mut cpp: Vec<PoolItem> = names.iter().filter(|n| n.ends_with(".hpp")).map(|n| PoolItem { source: Source::Repo(n.clone()), depfile: false, extra_flags: old.clone() }).collect();
+        for (k, c) in c07::chain_grid().into_iter().enumerate() {
+            if k % 27 == 5 {
+                if let c07::Case::Dag { graph, .. } = c {
+                    cpp.push(PoolItem { source: Source::Dag(graph), depfile: false, extra_flags: old.clone() });
+                }
+            }
+        }
+        for c in cpp.chunks(4) {
+            let n = c.len();
+            let mut steps: Vec<Step> = vec![];
+            for i in 0..n {
+                steps.push(Step::Generate(i));
+                steps.push(Step::Generate(i));
+            }
+            for i in 0..n {
+                steps.push(Step::SameBuilderAgain(i, 2));
+            }
+            steps.push(Step::Concurrent { threads: 8, inputs: (0..n).collect(), same_input: false });
+            steps.push(Step::Concurrent { threads: 4, inputs: vec![0], same_input: true });
+            for i in 0..n {
+                steps.push(Step::Generate(i));
+            }
+            v.push(Case { pool: c.to_vec(), steps, processes: tier.pick(2, 8) as u8 });
+        }
+        v
     }
 
     fn evaluate(&self, case: &Case, env: &Env) -> Outcome {
